@@ -234,6 +234,42 @@ Section Reachable.
       (forall x i', lookup teqb x m = Some i' -> exists k i, In (k, i) r /\ name_at g k = Some x /\ info_names g i i').
   Proof. exact (wf_single_source teqb tltb teqb_spec tltb_total). Qed.
 
+  (* The same, read entirely on node names and the edge store — "Dijkstra returns exactly
+     the shortest distances and shortest paths": every name in the returned map is a node,
+     with its exact shortest distance from the source (within the cutoff) and paths that
+     are the name form of shortest paths (none when with_paths=false, exactly one when
+     first_only, ALL of them for positive weights otherwise); and every node within the
+     cutoff — the target, when one is given — is in the map with that distance. *)
+  Theorem C04_reachable_single_source_answer : forall (g : gstate) (weighted : bool)
+      (source : T) (target : option T) (cutoff : option Q) (fo wp : bool) (si : nat),
+    WF g -> small_adj g -> (weighted = true -> weights_nonneg g) ->
+    name_at g si = Some source ->
+    (forall t, target = Some t -> In t (names g)) ->
+    cutoff_exceeded cutoff 0 = false ->
+    exists m,
+      single_source teqb g weighted source target cutoff fo wp = Ok m /\
+      (forall y info, lookup teqb y m = Some info ->
+         exists j, name_at g j = Some y /\
+           a_is_dist (edge_arc teqb g weighted) (number_of_nodes g) si j (sp_distance info) /\
+           within cutoff (sp_distance info) /\
+           (wp = false -> sp_paths info = []) /\
+           (forall p', In p' (sp_paths info) ->
+              exists p, names_of g p p' /\ a_SP (edge_arc teqb g weighted) (number_of_nodes g) si j p) /\
+           (wp = true -> fo = true -> length (sp_paths info) = 1%nat) /\
+           (wp = true -> fo = false -> a_positive (edge_arc teqb g weighted) ->
+              forall p, a_SP (edge_arc teqb g weighted) (number_of_nodes g) si j p ->
+                        exists p', In p' (sp_paths info) /\ names_of g p p')) /\
+      (forall j y d, name_at g j = Some y ->
+         a_is_dist (edge_arc teqb g weighted) (number_of_nodes g) si j d -> within cutoff d ->
+         (target = None \/ target = Some y) ->
+         exists info, lookup teqb y m = Some info /\ sp_distance info = d).
+  Proof. exact (wf_single_source_answer teqb tltb teqb_spec tltb_total). Qed.
+
+  (* positivity of the arcs (premise of the all-paths clause) from the stored weights *)
+  Theorem C04_arcs_positive : forall (g : gstate) (weighted : bool),
+    (weighted = true -> weights_positive g) -> a_positive (edge_arc teqb g weighted).
+  Proof. exact (edge_arc_positive teqb). Qed.
+
   (* ... hence for every state reached by any history of mutations from Graph::new(specs) ... *)
   Corollary C04_history_single_source : forall (s : specs) (g : gstate) (weighted : bool)
       (source : T) (target : option T) (cutoff : option Q) (fo wp : bool) (si : nat),
